@@ -142,7 +142,8 @@ class C17(F.PropCheck):
     # ---------------- generators
     def gen_connect(self, rng):
         c = consts(); E = c['EMAIL_MAXSIZE']; P = c['PWD_MAXSIZE']
-        def txt(n): return bytes(rng.choice(b'abcdefghijklmnopqrstuvwxyzABCDEFGHIJKLMNOPQRSTUVWXYZ0123456789_-@.!') for _ in range(n))
+        binary = rng.random() < 0.25      # credentials are byte strings: any value 1..255
+        def txt(n): return bytes(rng.randrange(1, 256) if binary else rng.choice(b'abcdefghijklmnopqrstuvwxyzABCDEFGHIJKLMNOPQRSTUVWXYZ0123456789_-@.!') for _ in range(n))
         ul = rng.choice([0, 1, 4, 10, rng.randrange(0, 60), rng.randrange(0, E - 1), E - 2, E - 3, E - 36])
         ul = max(0, min(E - 2, ul))
         room = E - ul - 1                       # bytes behind the user name's terminator
@@ -155,7 +156,7 @@ class C17(F.PropCheck):
         user, pw = txt(ul), txt(pl)
         uimg, pimg = store_credentials(rng, user, pw, junk=rng.random() < 0.4)
         pfl = rng.choice([0, 0, 1, 5, rng.randrange(0, 50), 49])
-        pimg2 = (txt(pfl).replace(b'/', b'x') + b'\0' * 50)[:50]
+        pimg2 = (txt(pfl) + b'\0' * 50)[:50]
         flags = 1 | (8 if rng.random() < 0.4 else 0) | (4 if rng.random() < 0.3 else 0)
         guid = bytes(rng.getrandbits(8) for _ in range(16))
         tags = ['connect:' + ('noauth' if flags & 8 else 'auth'), 'pw:' + ('short' if pl < P else 'split' if pl - P < room - 1 else 'split-max')]
